@@ -68,9 +68,24 @@ func NamedTypeString(t types.Type) string {
 		if path == "" {
 			path = "seqdb"
 		}
-		return path + "." + obj.Name()
+		name := path + "." + obj.Name()
+		if old, ok := typeAlias[name]; ok {
+			return old
+		}
+		return name
 	}
-	return t.String()
+	return CleanName(t.String())
+}
+
+// TypeStr is the clean, alias-aware string of a type (module prefix stripped, renamed types under their recorded names).
+func TypeStr(t types.Type) string {
+	s := t.String()
+	s = strings.ReplaceAll(s, ModPath+"/", "")
+	s = strings.ReplaceAll(s, ModPath+".", "seqdb.")
+	if len(typeAlias) > 0 {
+		s = applyTypeAlias(s)
+	}
+	return s
 }
 
 // FieldOf describes a FieldAddr/Field: owning named struct type and field name.
